@@ -47,6 +47,9 @@ public:
 
     unsigned int referenceCount() const;
 
+    // true iff the object can still be reached from the root group of its file
+    bool isLinked() const;
+
     LocID &operator=(const LocID &other) {
         H5Object::operator= (other);
         return *this;
